@@ -408,7 +408,9 @@ def match_table(cs, wanted, deep_ref=None):
         idx = [i for i, t in enumerate(texts) if t == cond and i not in used]
         if len(idx) >= n:
             res[cond] = [cs[i] for i in idx]
-            used.update(idx)
+            # claim only as many as the entry needs: the same comparison written the other way round (`b > a` for `a < b`) may be
+            # another entry's, and after a refactor all of them can have one spelling
+            used.update(idx[:n])
     # the flipped spelling, only for entries the exact spelling did not satisfy and only among checks nothing else claimed
     for cond, n in wanted:
         if cond in res:
